@@ -71,10 +71,14 @@ def o_pipeline_selection(ctx):
     args = []
     for c in chains:
         args += ['-c', c]
-    with_option = M.run(txt, args=args)
+    # together with a titrate-only list naming the aspartates of the selected chains (a blank chain is written '_' there)
+    extra = []
+    if ctx.choice('with_titrate_only', [False, True]):
+        extra = ['-i', ','.join('%s:25' % (c if c != ' ' else '_') for c in chains)]
+    with_option = M.run(txt, args=args + extra)
     kept = ''.join(l + '\n' for l in txt.split('\n') if l and not (l[:4] == 'ATOM' and l[21] not in chains))
     # a TER record left over from a deleted chain stays in the file, as it would when a user deletes the ATOM records
-    deleted = M.run(kept)
+    deleted = M.run(kept, args=extra)
 
     def rec(mol):
         return sorted((g.type, g.atom.name, g.atom.res_num, g.atom.chain_id, round(g.pka_value, 9), round(g.energy_volume, 9),
@@ -100,7 +104,7 @@ def obligations(tier):
     obs.append(Obligation('O2-option-plumbing', o_plumbing, code=['propka/lib.py:build_parser', 'propka/lib.py:loadOptions', I + 'read_pdb'],
                           bounds='8 command lines (upper- and lower-case letters, digits, blank)', kind='table-check'))
     obs.append(Obligation('O3-pipeline-selection', o_pipeline_selection, code=['propka/run.py:single (whole pipeline)', 'propka/molecular_container.py:MolecularContainer.__init__', I + 'read_pdb', I + 'get_atom_lines_from_pdb'],
-                          bounds='two-chain micro-structure, second chain identifier in {B, a, 1, blank, b}, selection first / second / both (15 concrete runs against the files with the other chain deleted)', kind='table-check',
+                          bounds='two-chain micro-structure, second chain identifier in {B, a, 1, blank, b}, selection first / second / both, with and without a titrate-only list naming residues of the selected chains (30 concrete runs against the files with the other chain deleted)', kind='table-check',
                           claim_doc='same groups, pKa values, desolvation and determinants'))
     from .c03 import mk_batch_inputs
     obs.append(Obligation('O4-selection-with-several-inputs', mk_batch_inputs(['pair_ASP_ASP', 'nterm_ASP_LYS', 'pep8'], [['-c', 'A'], ['-c', 'B', '-c', 'A']]),
